@@ -97,6 +97,7 @@ TLC_EVENT_KEYS = {
     "finalize_end",
     "ext_edit",
     "hash_submit",
+    "proc_end",
 }
 
 
